@@ -175,7 +175,9 @@ def run_collective(jumps, M, w, cut, order=0, SITE_FRAC=SITE_FRAC):
     if order == 1:
         rows = rows[::-1]
     df = pd.DataFrame(data=np.array(rows, dtype=int).reshape(-1, 5), columns=COLS)
-    sites = concretise.make_sites(np.array(SITE_FRAC), ['A', 'A', 'B', 'B'][: len(SITE_FRAC)], M)
+    # the site structure may carry its own cell: the `lattice` argument (simulation cell) defines the distances
+    Ms = np.asarray(M) if order == 0 else (np.asarray(M) * 1.05) @ geom.rotation((12.0, 31.0, 47.0)).T
+    sites = concretise.make_sites(np.array(SITE_FRAC), ['A', 'A', 'B', 'B'][: len(SITE_FRAC)], Ms)
     return Collective(jumps=types.SimpleNamespace(data=df), sites=sites, lattice=Lattice(np.asarray(M)), max_steps=w, max_dist=cut)
 
 
